@@ -116,6 +116,17 @@ func (u *UM) UnmarshalFlag(s string) error {
 
 func (u UM) MarshalFlag() (string, error) { return u.V, nil }
 
+// UList is a named slice type that unmarshals by accumulation.
+type UList []string
+
+func (l *UList) UnmarshalFlag(s string) error {
+	if err := cur.callee("unmarshal", s, nil); err != nil {
+		return err
+	}
+	*l = append(*l, s)
+	return nil
+}
+
 // VV implements ValueValidator.
 type VV string
 
@@ -172,6 +183,7 @@ var scalarTypes = map[string]reflect.Type{
 	"duration": reflect.TypeOf(time.Duration(0)),
 	"um":       reflect.TypeOf(UM{}), "vv": reflect.TypeOf(VV("")), "cp": reflect.TypeOf(CP("")),
 	"filename": reflect.TypeOf(flags.Filename("")),
+	"ulist":    reflect.TypeOf(UList(nil)),
 }
 
 var errorType = reflect.TypeOf((*error)(nil)).Elem()
@@ -203,13 +215,15 @@ func goType(kind string) reflect.Type {
 }
 
 func isFuncKind(k string) bool  { return strings.HasPrefix(k, "func(") }
-func isSliceKind(k string) bool { return strings.HasPrefix(k, "[]") }
+func isSliceKind(k string) bool { return strings.HasPrefix(k, "[]") || k == "ulist" }
 func isMapKind(k string) bool   { return strings.HasPrefix(k, "map[") }
 func isPtrKind(k string) bool   { return strings.HasPrefix(k, "*") }
 
 // elemKind strips one container layer: []T → T, *T → T, map[K]V → V.
 func elemKind(k string) string {
 	switch {
+	case k == "ulist":
+		return "string"
 	case isSliceKind(k):
 		return k[2:]
 	case isPtrKind(k):
@@ -387,13 +401,14 @@ type BuiltCmd struct {
 }
 
 type Built struct {
-	P      *flags.Parser
-	Spec   *DeclSpec
-	Opts   []*BuiltOpt
-	Args   []*BuiltArg
-	ByPath map[string]*BuiltOpt
-	Cmds   []*BuiltCmd
-	Err    error // declaration rejected by the library
+	P       *flags.Parser
+	Spec    *DeclSpec
+	Opts    []*BuiltOpt
+	Args    []*BuiltArg
+	ByPath  map[string]*BuiltOpt
+	Cmds    []*BuiltCmd
+	Err     error // declaration rejected by the library
+	KeptIni *flags.IniParser
 }
 
 func nsDelim(d *DeclSpec) string {
